@@ -20,6 +20,7 @@ from __future__ import annotations
 import ast
 import copy
 import itertools
+import re
 from dataclasses import dataclass, field
 from typing import Any, Callable, Dict, List, Optional, Tuple
 
@@ -111,6 +112,7 @@ class MapV:
     entries: Dict[Any, Any] = field(default_factory=dict)
     name: Optional[Tuple[str, str]] = None
     unknown: Optional[str] = None
+    factory: Optional[str] = None      # collections.defaultdict(list / int / set)
 
 
 @dataclass
@@ -244,6 +246,7 @@ class State:
         self.call_memo: Dict[int, Any] = {}               # results of calls that forked (see with_forks)
         self.yields: List[Any] = []                       # one ListV per generator function being run (what it has yielded so far)
         self.globals: Dict[Tuple[str, str], Any] = {}     # module-level mutable objects touched in this run (shared by all frames)
+        self.versions: Dict[str, int] = {}                # how often a name has been assigned on this path (see branch_value)
 
     @property
     def env(self) -> Dict[str, Any]:
@@ -363,6 +366,8 @@ class Interp:
 
     MAX_STEPS = 200000
     UNROLL = 16
+    set_order: Optional[str] = None      # None: iterating a set of several elements is not modelled; "insertion" / "reversed": assumed order
+    set_iterations = 0
 
     def __init__(self, sources: core.Sources, origin_len: int = 12, fq_range=(0, 4)):
         self.sources = sources
@@ -397,7 +402,7 @@ class Interp:
                 for a in n.names:
                     nm = a.asname or a.name
                     if target is None:
-                        if n.level == 0 and n.module in ("math", "operator", "itertools", "functools"):
+                        if n.level == 0 and n.module in ("math", "operator", "itertools", "functools", "collections"):
                             env[nm] = FuncRef(f"<{n.module}>", a.name)
                         continue
                     if target == "a5/core/origin.py" and a.name == "origins":
@@ -410,7 +415,7 @@ class Interp:
                             env[nm] = sub[a.name]
             elif isinstance(n, ast.Import):
                 for a in n.names:
-                    if a.name in ("math", "operator", "itertools", "functools"):
+                    if a.name in ("math", "operator", "itertools", "functools", "collections"):
                         env[a.asname or a.name] = FuncRef("<module>", a.name)
             elif isinstance(n, (ast.Assign, ast.AnnAssign)):
                 tgt = n.targets[0] if isinstance(n, ast.Assign) else n.target
@@ -632,6 +637,7 @@ class Interp:
     def assign(self, target: ast.expr, v: Any, state: State, rel: str) -> None:
         if isinstance(target, ast.Name):
             state.env[target.id] = v
+            state.versions[target.id] = state.versions.get(target.id, 0) + 1
             return
         if isinstance(target, (ast.Tuple, ast.List)):
             items = None
@@ -648,6 +654,33 @@ class Interp:
             for e, x in zip(target.elts, items):
                 self.assign(e, x, state, rel)
             return
+        if isinstance(target, ast.Subscript) and isinstance(target.slice, ast.Slice):
+            base = self.eval(target.value, state, rel)
+            sl = target.slice
+            lo_ = self.eval(sl.lower, state, rel) if sl.lower is not None else Lin(0)
+            hi_ = self.eval(sl.upper, state, rel) if sl.upper is not None else None
+            if isinstance(v, GenV):
+                v = self.materialise(v, state)
+            vals = self.plain_items(v)
+            if isinstance(base, ListV) and sl.step is None and isinstance(lo_, Lin) and isinstance(hi_, Lin) and lo_.is_const() and hi_.is_const() \
+                    and vals is not None and 0 <= lo_.const <= hi_.const and len(vals) == hi_.const - lo_.const and not state.binders \
+                    and ((base.alloc_len is not None and base.alloc_len.is_const() and hi_.const <= base.alloc_len.const) or
+                         (base.alloc_len is None and self.plain_items(base) is not None and hi_.const <= len(base.segs))):
+                # same length on both sides, inside the list: element-wise stores
+                for j_, x_ in enumerate(vals):
+                    if base.alloc_len is not None:
+                        base.stores.append((Lin(lo_.const + j_), x_, ()))
+                    else:
+                        base.segs[lo_.const + j_] = Seg(x_)
+                return
+            if isinstance(base, ListV):
+                base.unknown = "slice store that is not followed element by element"
+                state.effects.append(("store-unmodelled", (core.src(target), v)))
+                return
+            if isinstance(base, (GenericList, TableV)):
+                state.effects.append(("mutates-input", core.src(target)))
+            state.effects.append(("store-unmodelled", (core.src(target), v)))
+            return
         if isinstance(target, ast.Subscript):
             base = self.eval(target.value, state, rel)
             idx = self.eval(target.slice, state, rel)
@@ -656,7 +689,7 @@ class Interp:
                 state.effects.append(("store", (base, idx, v, state.binders)))
                 return
             if isinstance(base, MapV):
-                key = self.freeze_key(idx)
+                key = self.key_for(base, idx)
                 if key is _MISSING:
                     base.unknown = "written with a symbolic key"
                 else:
@@ -804,6 +837,8 @@ class Interp:
         if fams is None:
             raise _Unmodelled(f"for loop over {it!r} at {core.loc(rel, st)}")
         # summarised iteration: body interpreted once per family with binder symbols
+        if st.orelse:
+            raise _Unmodelled(f"for/else over a summarised sequence at {core.loc(rel, st)}")
         cur = [state]
         results = []
         assigned = _assigned_names(st.body)
@@ -877,7 +912,13 @@ class Interp:
                     return [Lin(i) for i in range(it.lo.const, it.hi.const)]
             return None
         if isinstance(it, ListV) and it.unordered and len(it.segs) > 1:
-            return None
+            if self.set_order is None or it.unknown or any(sg.binders for sg in it.segs):
+                return None
+            self.set_iterations += 1
+            els = [sg.elem for sg in it.segs]
+            return els if self.set_order == "insertion" else list(reversed(els))
+        if isinstance(it, MapV) and it.name is None and not it.unknown and len(it.entries) <= self.UNROLL:
+            return [self.thaw_key(k) for k in it.entries]
         if isinstance(it, ListV) and not it.unknown:
             if all(not s.binders for s in it.segs) and len(it.segs) <= self.UNROLL:
                 return [s.elem for s in it.segs]
@@ -1010,7 +1051,10 @@ class Interp:
             return out
         if isinstance(v, (OriginV, CellV, TableV, FuncRef)):
             return [(True, state)]
-        c = CondV("!=", Lin.of(Opaque(f"truth of {text}", 0, 1)), Lin(0))
+        # an unmodelled test is the same unknown only while the variables it mentions have not been assigned again
+        vers = [state.versions[n_] for n_ in dict.fromkeys(re.findall(r"[A-Za-z_]\w*", text)) if n_ in state.versions]
+        tag = f" [{'.'.join(map(str, vers))}]" if any(v_ > 1 for v_ in vers) else ""
+        c = CondV("!=", Lin.of(Opaque(f"truth of {text}{tag}", 0, 1)), Lin(0))
         return self.fork_on(c, state, where)
 
     def fork_on(self, c: CondV, state: State, where: str) -> List[Tuple[bool, State]]:
@@ -1209,6 +1253,22 @@ class Interp:
             return CellV({k: self.eval(v, state, rel) for k, v in zip(keys, e.values)})
         if isinstance(e, ast.ListComp):
             return self.list_comp(e, state, rel)
+        if isinstance(e, ast.Set):
+            out_ = ListV([], unordered=True)
+            for x in e.elts:
+                if isinstance(x, ast.Starred) or not self.set_add(out_, self.eval(x, state, rel)):
+                    return Unknown("set display not followed element by element")
+            return out_
+        if isinstance(e, ast.SetComp):
+            lst_ = self.list_comp(ast.copy_location(ast.ListComp(elt=e.elt, generators=e.generators), e), state, rel)
+            its_ = self.plain_items(lst_)
+            if its_ is None:
+                return Unknown("set comprehension not followed element by element")
+            out_ = ListV([], unordered=True)
+            for x in its_:
+                if not self.set_add(out_, x):
+                    return Unknown("set comprehension: equality of two elements not decided")
+            return out_
         if isinstance(e, ast.GeneratorExp):
             return GenV(e, self.eval(e.generators[0].iter, state, rel), rel)
         if isinstance(e, ast.Lambda):
@@ -1239,14 +1299,43 @@ class Interp:
             state.env.pop(hidden, None)
 
     def list_comp(self, e: ast.ListComp, state: State, rel: str, gi: int = 0) -> Any:
-        if any(g.ifs or g.is_async for g in e.generators):
+        if any(g.is_async for g in e.generators) or (len(e.generators) > 1 and any(g.ifs for g in e.generators)):
             return Unknown("comprehension with a filter")
         if len(e.generators) > 1:
             return self._nested_comp(e, state, rel)
         g = e.generators[0]
         it = self.eval(g.iter, state, rel)
+        if isinstance(it, GenV):
+            it = self.materialise(it, state)
         out = ListV([])
         items = None
+        if g.ifs:
+            items = self.concrete_items(it)
+            if items is None:
+                return Unknown("comprehension with a filter over a summarised sequence")
+            saved_f = {n.id: state.env.get(n.id, _MISSING) for n in ast.walk(g.target) if isinstance(n, ast.Name)}
+            try:
+                for item in items:
+                    self.assign(g.target, item, state, rel)
+                    keep = True
+                    for cond in g.ifs:
+                        c_ = self.eval(cond, state, rel)
+                        if isinstance(c_, Lin) and c_.is_const():
+                            c_ = c_.const != 0
+                        if not isinstance(c_, bool):
+                            return Unknown("comprehension filter not decided element by element")
+                        if not c_:
+                            keep = False
+                            break
+                    if keep:
+                        out.segs.append(Seg(self.eval(e.elt, state, rel), state.binders))
+                return out
+            finally:
+                for k, v in saved_f.items():
+                    if v is _MISSING:
+                        state.env.pop(k, None)
+                    else:
+                        state.env[k] = v
         if not (isinstance(it, RangeV) and it.count is None and it.lo.is_const() and it.hi.is_const() and it.hi.const - it.lo.const > max(1, self.unroll_ranges)):
             items = self.concrete_items(it)
         saved = {n.id: state.env.get(n.id, _MISSING) for n in ast.walk(g.target) if isinstance(n, ast.Name)}
@@ -1346,8 +1435,22 @@ class Interp:
                     return Unknown("identity test on unknown")
                 return same if isinstance(op, ast.Is) else not same
             return Unknown("identity test")
+        if isinstance(l, ListV) and isinstance(r, ListV) and l.unordered and r.unordered and isinstance(op, (ast.LtE, ast.GtE, ast.Eq, ast.NotEq)):
+            if isinstance(op, ast.LtE):
+                return self.subset_of(l, r)
+            if isinstance(op, ast.GtE):
+                return self.subset_of(r, l)
+            a_, b_ = self.subset_of(l, r), self.subset_of(r, l)
+            if isinstance(a_, bool) and isinstance(b_, bool):
+                return (a_ and b_) if isinstance(op, ast.Eq) else not (a_ and b_)
+            return Unknown("set equality not decided")
+        if isinstance(op, (ast.In, ast.NotIn)) and isinstance(r, (ListV, TupleV)):
+            got = self.member_of(l, r)
+            if got is None:
+                return Unknown("membership not decided element by element")
+            return got if isinstance(op, ast.In) else not got
         if isinstance(op, (ast.In, ast.NotIn)) and isinstance(r, MapV):
-            key = self.freeze_key(l)
+            key = self.key_for(r, l)
             if key is _MISSING or r.unknown:
                 return Unknown("membership in a table with symbolic keys")
             present = key in r.entries
@@ -1410,6 +1513,37 @@ class Interp:
             return (l.text == r.text) == (sym == "==")
         return Unknown(f"comparison of {type(l).__name__} and {type(r).__name__}")
 
+    def set_op(self, op: ast.operator, l: Any, r: Any) -> Any:
+        li, ri = self.plain_items(l), self.plain_items(r)
+        if li is None or ri is None:
+            return Unknown("set operation on a value that is not known element by element")
+        out = ListV([], unordered=True)
+        if isinstance(op, ast.BitOr):
+            for x in li + ri:
+                if not self.set_add(out, x):
+                    return Unknown("set union: equality of two elements not decided")
+            return out
+        for x in li:
+            m_ = self.member_of(x, r)
+            if m_ is None:
+                return Unknown("set operation: membership not decided")
+            if m_ == isinstance(op, ast.BitAnd):
+                if not self.set_add(out, x):
+                    return Unknown("set operation: equality of two elements not decided")
+        return out
+
+    def subset_of(self, a: Any, b: Any) -> Any:
+        ai = self.plain_items(a)
+        if ai is None:
+            return Unknown("subset test on an unmodelled value")
+        for x in ai:
+            m_ = self.member_of(x, b)
+            if m_ is None:
+                return Unknown("subset test: membership not decided")
+            if not m_:
+                return False
+        return True
+
     def binop(self, op: ast.operator, l: Any, r: Any, state: State, node: ast.AST) -> Any:
         if isinstance(l, bool):
             l = Lin(int(l))
@@ -1421,6 +1555,8 @@ class Interp:
                 return FloatV((name, l.expr if isinstance(l, FloatV) else ("int", l),
                                r.expr if isinstance(r, FloatV) else ("int", r)))
             return Unknown("float arithmetic")
+        if isinstance(l, ListV) and l.unordered and isinstance(r, ListV) and r.unordered and isinstance(op, (ast.BitOr, ast.Sub, ast.BitAnd)):
+            return self.set_op(op, l, r)
         if isinstance(l, TupleV) and isinstance(r, TupleV) and isinstance(op, ast.Add):
             return TupleV(list(l.items) + list(r.items))
         if isinstance(l, ListV) and isinstance(r, Lin) and isinstance(op, ast.Mult):
@@ -1527,7 +1663,7 @@ class Interp:
                 return base.fields[idx.text]
             return Unknown(f"cell key {idx!r}")
         if isinstance(base, MapV):
-            return self._table_read(base, self.freeze_key(idx), None, state, node, has_default=False)
+            return self._table_read(base, self.key_for(base, idx), None, state, node, has_default=False)
         if isinstance(base, TableV):
             if isinstance(idx, Lin):
                 lo, hi = idx.rng()
@@ -1586,6 +1722,140 @@ class Interp:
             return None if any(p is _MISSING for p in parts) else tuple(parts)
         return _MISSING
 
+    @staticmethod
+    def value_eq(a: Any, b: Any) -> Optional[bool]:
+        """a == b for integers, strings, None and tuples of them; None when not decided"""
+        if isinstance(a, bool) or isinstance(b, bool):
+            return (a == b) if isinstance(a, bool) and isinstance(b, bool) else None
+        if isinstance(a, Lin) and isinstance(b, Lin):
+            return compare(a, "==", b)
+        if isinstance(a, StrV) and isinstance(b, StrV):
+            return a.text == b.text
+        if isinstance(a, NoneV) or isinstance(b, NoneV):
+            if isinstance(a, (Lin, StrV, TupleV, NoneV)) and isinstance(b, (Lin, StrV, TupleV, NoneV)):
+                return isinstance(a, NoneV) and isinstance(b, NoneV)
+            return None
+        if isinstance(a, TupleV) and isinstance(b, TupleV):
+            if len(a.items) != len(b.items):
+                return False
+            res: Optional[bool] = True
+            for x, y in zip(a.items, b.items):
+                r = Interp.value_eq(x, y)
+                if r is False:
+                    return False
+                if r is None:
+                    res = None
+            return res
+        if isinstance(a, (Lin, StrV, TupleV)) and isinstance(b, (Lin, StrV, TupleV)):
+            return False
+        return None
+
+    def plain_items(self, xs: Any) -> Optional[List[Any]]:
+        """the elements of a list / set / tuple that is known element by element"""
+        if isinstance(xs, TupleV):
+            return list(xs.items)
+        if isinstance(xs, ListV) and not xs.unknown and not xs.stores and xs.alloc_len is None and all(not sg.binders for sg in xs.segs):
+            return [sg.elem for sg in xs.segs]
+        return None
+
+    def member_of(self, x: Any, xs: Any) -> Optional[bool]:
+        items = self.plain_items(xs)
+        if items is None:
+            return None
+        open_ = False
+        for y in items:
+            r = self.value_eq(x, y)
+            if r is True:
+                return True
+            if r is None:
+                open_ = True
+        return None if open_ else False
+
+    def set_add(self, st_: ListV, x: Any) -> bool:
+        """adds x to a set value; False when equality with a present element is not decided"""
+        r = self.member_of(x, st_)
+        if r is None:
+            st_.unknown = "set element whose equality with another is not decided"
+            return False
+        if not r:
+            st_.segs.append(Seg(x))
+        return True
+
+    @staticmethod
+    def _key_eq(a: Any, b: Any) -> Optional[bool]:
+        """equality of two frozen keys: True / False, None when a symbolic part leaves it open"""
+        ta, tb = isinstance(a, tuple), isinstance(b, tuple)
+        if ta or tb:
+            if not (ta and tb) or len(a) != len(b):
+                return False
+            res: Optional[bool] = True
+            for x, y in zip(a, b):
+                r = Interp._key_eq(x, y)
+                if r is False:
+                    return False
+                if r is None:
+                    res = None
+            return res
+        la, lb = isinstance(a, Lin), isinstance(b, Lin)
+        if la or lb:
+            if isinstance(a, bool) or isinstance(b, bool):
+                return None
+            if not la:
+                if not isinstance(a, int):
+                    return False
+                a = Lin(a)
+            if not lb:
+                if not isinstance(b, int):
+                    return False
+                b = Lin(b)
+            return compare(a, "==", b)
+        return a == b
+
+    @staticmethod
+    def _freeze_sym(k: Any):
+        """like freeze_key, but a symbolic integer form stays in the key as it is"""
+        if isinstance(k, Lin) and not k.is_const():
+            return _MISSING if k.has_opaque() else k
+        if isinstance(k, TupleV):
+            parts = [Interp._freeze_sym(x) for x in k.items]
+            return _MISSING if any(p is _MISSING for p in parts) else tuple(parts)
+        return Interp.freeze_key(k)
+
+    def key_for(self, m: MapV, k: Any):
+        """the entry of `m` that `k` addresses.  Tables of a single run (no module-level name) may be keyed by symbolic forms: `k`
+        addresses the existing key it is decided equal to, a new entry when it is decided different from every key, and nothing
+        (_MISSING) when one comparison stays open.  Module-level tables keep concrete keys only: a symbol of one call says nothing
+        about the symbol of the same name in another call."""
+        fk = self.freeze_key(k)
+        if fk is not _MISSING and not any(isinstance(e, (Lin, tuple)) for e in m.entries):
+            return fk
+        if m.name is not None:
+            return fk
+        fk = self._freeze_sym(k)
+        if fk is _MISSING:
+            return _MISSING
+        for e in m.entries:
+            r = self._key_eq(e, fk)
+            if r is True:
+                return e
+            if r is None:
+                return _MISSING
+        return fk
+
+    @staticmethod
+    def thaw_key(k: Any) -> Any:
+        if isinstance(k, bool):
+            return k
+        if isinstance(k, int):
+            return Lin(k)
+        if isinstance(k, str):
+            return StrV(k)
+        if k is None:
+            return NONE
+        if isinstance(k, tuple):
+            return TupleV([Interp.thaw_key(x) for x in k])
+        return k
+
     def _record_store(self, m: MapV, key: Any, v: Any) -> None:
         if m.name is None:
             return
@@ -1607,6 +1877,10 @@ class Interp:
                 alts.append(default)
         elif has_default:
             alts.append(default)
+        if not alts and m.factory is not None and not has_default and m.name is None:
+            made = {"list": lambda: ListV([]), "set": lambda: ListV([], unordered=True), "int": lambda: Lin(0)}[m.factory]()
+            m.entries[key] = made
+            return made
         if not alts:
             raise _Raise(ExcV("KeyError", repr(key)), state)
         if len(alts) == 1:
@@ -1626,9 +1900,9 @@ class Interp:
 
     def map_method(self, m: MapV, attr: str, args: List[Any], state: State, node: ast.Call) -> Any:
         if attr == "get" and 1 <= len(args) <= 2:
-            return self._table_read(m, self.freeze_key(args[0]), args[1] if len(args) == 2 else NONE, state, node)
+            return self._table_read(m, self.key_for(m, args[0]), args[1] if len(args) == 2 else NONE, state, node)
         if attr == "setdefault" and len(args) == 2:
-            key = self.freeze_key(args[0])
+            key = self.key_for(m, args[0])
             if key is _MISSING:
                 m.unknown = "written with a symbolic key"
                 return Unknown("table key")
@@ -1643,8 +1917,15 @@ class Interp:
         if attr in ("clear",):
             m.entries.clear()
             return NONE
+        if attr in ("items", "keys", "values") and not args and m.name is None and not m.unknown:
+            # a snapshot in insertion order (the loops that use it do not resize the dict; Python would raise if they did)
+            if attr == "items":
+                return ListV([Seg(TupleV([self.thaw_key(k), v])) for k, v in m.entries.items()])
+            if attr == "keys":
+                return ListV([Seg(self.thaw_key(k)) for k in m.entries])
+            return ListV([Seg(v) for v in m.entries.values()])
         if attr == "pop" and args:
-            key = self.freeze_key(args[0])
+            key = self.key_for(m, args[0])
             v = self._table_read(m, key, args[1] if len(args) > 1 else NONE, state, node, has_default=len(args) > 1)
             m.entries.pop(key, None)
             return v
@@ -1727,7 +2008,92 @@ class Interp:
         if isinstance(f, ast.Attribute):
             recv = self.eval(f.value, state, rel)
             args = [self.eval(a, state, rel) for a in e.args]
+            if isinstance(recv, ListV) and recv.unordered:
+                if f.attr == "add" and len(args) == 1:
+                    self.set_add(recv, args[0])
+                    return NONE
+                if f.attr == "update" and args:
+                    for a_ in args:
+                        if isinstance(a_, GenV):
+                            a_ = self.materialise(a_, state)
+                        its = self.plain_items(a_)
+                        if its is None:
+                            recv.unknown = "set.update with an unmodelled value"
+                            return NONE
+                        for x_ in its:
+                            if not self.set_add(recv, x_):
+                                return NONE
+                    return NONE
+                if f.attr in ("discard", "remove") and len(args) == 1 and self.plain_items(recv) is not None:
+                    keep, hit, open_ = [], False, False
+                    for sg in recv.segs:
+                        r_ = self.value_eq(args[0], sg.elem)
+                        if r_ is None:
+                            open_ = True
+                        if r_ is True:
+                            hit = True
+                        else:
+                            keep.append(sg)
+                    if open_:
+                        recv.unknown = "set removal whose element is not decided"
+                        return NONE
+                    if not hit and f.attr == "remove":
+                        raise _Raise(ExcV("KeyError", "set.remove of a missing element"), state)
+                    recv.segs[:] = keep
+                    return NONE
+                if f.attr == "copy" and not args:
+                    return ListV(list(recv.segs), recv.unknown, unordered=True)
+                if f.attr in ("union", "difference", "intersection") and len(args) == 1:
+                    op_ = {"union": ast.BitOr(), "difference": ast.Sub(), "intersection": ast.BitAnd()}[f.attr]
+                    other = args[0]
+                    if isinstance(other, GenV):
+                        other = self.materialise(other, state)
+                    return self.set_op(op_, recv, other)
+                if f.attr in ("issubset", "issuperset") and len(args) == 1:
+                    a_, b_ = (recv, args[0]) if f.attr == "issubset" else (args[0], recv)
+                    return self.subset_of(a_, b_)
+                recv.unknown = f"set method .{f.attr} not modelled"
+                return Unknown(f"set method .{f.attr}")
             if isinstance(recv, ListV):
+                if f.attr == "count" and len(args) == 1 and self.plain_items(recv) is not None:
+                    n_, open_ = 0, False
+                    for y_ in self.plain_items(recv):
+                        r_ = self.value_eq(args[0], y_)
+                        if r_ is None:
+                            open_ = True
+                        n_ += 1 if r_ else 0
+                    return Unknown("list.count not decided") if open_ else Lin(n_)
+                if f.attr == "copy" and not args and recv.alloc_len is None and not recv.stores:
+                    return ListV(list(recv.segs), recv.unknown)
+                if f.attr == "sort" and not args and self.plain_items(recv) is not None and not state.binders:
+                    kw_ = {}
+                    for k_ in e.keywords:
+                        if k_.arg is None:
+                            kw_ = None
+                            break
+                        kw_[k_.arg] = self.eval(k_.value, state, rel)
+                    srt = self.builtin("sorted", [ListV(list(recv.segs))], kw_, state, e) if kw_ is not None else None
+                    if isinstance(srt, ListV):
+                        recv.segs[:] = srt.segs
+                        state.effects.append(("sort", (recv,)))
+                        return NONE
+                if f.attr == "reverse" and not args and self.plain_items(recv) is not None and not state.binders:
+                    recv.segs.reverse()
+                    return NONE
+                if f.attr == "clear" and not args and not state.binders and recv.alloc_len is None:
+                    recv.segs.clear()
+                    recv.stores.clear()
+                    return NONE
+                if f.attr == "pop" and len(args) <= 1 and self.plain_items(recv) is not None and not state.binders \
+                        and (not args or (isinstance(args[0], Lin) and args[0].is_const())):
+                    i_ = args[0].const if args else -1
+                    if not recv.segs or not (-len(recv.segs) <= i_ < len(recv.segs)):
+                        raise _Raise(ExcV("IndexError", "pop from empty list" if not recv.segs else "pop index out of range"), state)
+                    return recv.segs.pop(i_).elem
+                if f.attr == "insert" and len(args) == 2 and self.plain_items(recv) is not None and not state.binders \
+                        and isinstance(args[0], Lin) and args[0].is_const():
+                    recv.segs.insert(args[0].const, Seg(args[1]))
+                    return NONE
                 if f.attr == "append" and len(args) == 1:
                     recv.segs.append(Seg(args[0], state.binders))
                     state.effects.append(("append", (recv, args[0], state.binders)))
@@ -1819,6 +2185,22 @@ class Interp:
                     return Lin.of(FltDivA(l, k))
         return None
 
+    def apply_value(self, fn: Any, args: List[Any], state: State, node: ast.AST, rel: str) -> Any:
+        """calls a function VALUE (named function, nested function / lambda, itemgetter) from inside a builtin such as
+        sorted(key=) or groupby(key=); only single-outcome calls are followed"""
+        if isinstance(fn, FuncRef):
+            return self.call_ref(fn, args, {}, state, node, rel)
+        if isinstance(fn, ItemGetterV) and len(args) == 1:
+            got = [self.subscript(args[0], k, state, node, rel) for k in fn.keys]
+            return got[0] if len(got) == 1 else TupleV(got)
+        if isinstance(fn, ClosureV):
+            nm_ = getattr(fn.node, "name", "<lambda>")
+            outs = self.run_node(fn.node, fn.rel, nm_, list(args), state, {}, dict(fn.frame))
+            if len(outs) == 1 and outs[0].kind == "return" and outs[0].state is state:
+                return outs[0].value
+            raise _Unmodelled(f"callback {nm_} with several outcomes")
+        return Unknown("call of a value that is not a function of the repository")
+
     def call_ref(self, fn: FuncRef, args: List[Any], kwargs: Dict[str, Any], state: State, node: ast.Call, rel: str) -> Any:
         if fn.module == "<builtin>":
             return self.builtin(fn.name, args, kwargs, state, node)
@@ -1828,6 +2210,39 @@ class Interp:
                 return v
         if fn.module == "<operator>" and fn.name in ("index", "pos") and len(args) == 1 and isinstance(args[0], Lin):
             return args[0]
+        if fn.module == "<itertools>" and fn.name == "groupby" and 1 <= len(args) <= 2 and set(kwargs) <= {"key"}:
+            xs = args[0]
+            if isinstance(xs, GenV):
+                xs = self.materialise(xs, state)
+            its = self.plain_items(xs)
+            kf = kwargs.get("key", args[1] if len(args) == 2 else None)
+            if its is None or (isinstance(xs, ListV) and xs.unordered and len(its) > 1):
+                return Unknown("groupby over a sequence that is not known element by element")
+            groups: List[Tuple[Any, List[Any]]] = []
+            for x in its:
+                kv = x if kf is None or isinstance(kf, NoneV) else self.apply_value(kf, [x], state, node, rel)
+                if groups:
+                    same = self.value_eq(groups[-1][0], kv)
+                    if same is None:
+                        return Unknown("groupby: equality of two neighbouring keys not decided")
+                    if same:
+                        groups[-1][1].append(x)
+                        continue
+                groups.append((kv, [x]))
+            return ListV([Seg(TupleV([k_, GenV(None, items=ListV([Seg(y) for y in ys]))])) for k_, ys in groups])
+        if fn.module == "<itertools>" and fn.name == "chain" and not kwargs:
+            out_: List[Seg] = []
+            for a_ in args:
+                if isinstance(a_, GenV):
+                    a_ = self.materialise(a_, state)
+                its = self.plain_items(a_)
+                if its is None or (isinstance(a_, ListV) and a_.unordered and len(its) > 1):
+                    return Unknown("chain over a sequence that is not known element by element")
+                out_.extend(Seg(x) for x in its)
+            return ListV(out_)
+        if fn.module == "<collections>" and fn.name == "defaultdict" and len(args) == 1 and not kwargs and isinstance(args[0], FuncRef) \
+                and args[0].module == "<builtin>" and args[0].name in ("list", "set", "int"):
+            return MapV({}, factory=args[0].name)
         if fn.module == "<operator>" and fn.name == "itemgetter" and args and not kwargs and all(isinstance(a, StrV) or (isinstance(a, Lin) and a.is_const()) for a in args):
             return ItemGetterV(list(args))
         if fn.module.startswith("<"):
@@ -1881,6 +2296,22 @@ class Interp:
     def builtin(self, name: str, args: List[Any], kwargs: Dict[str, Any], state: State, node: ast.Call) -> Any:
         if name == "A5Cell":
             return CellV(dict(kwargs))
+        if name in ("max", "min") and len(args) == 1 and set(kwargs) <= {"default"}:
+            a0 = args[0]
+            if isinstance(a0, GenV):
+                a0 = self.materialise(a0, state)
+            if isinstance(a0, MapV) and a0.name is None and not a0.unknown:
+                a0 = ListV([Seg(self.thaw_key(k)) for k in a0.entries])
+            its = self.plain_items(a0)
+            if its is None or not all(isinstance(x, Lin) for x in its):
+                return Unknown(f"{name} of a sequence that is not known element by element")
+            if not its:
+                if "default" in kwargs:
+                    return kwargs["default"]
+                raise _Raise(ExcV("ValueError", f"{name}() arg is an empty sequence"), state)
+            if len(its) == 1:
+                return its[0]
+            args, kwargs = its, {}
         if name in ("max", "min") and len(args) >= 2 and all(isinstance(a, Lin) for a in args):
             best = args[0]
             for a in args[1:]:
@@ -1918,12 +2349,25 @@ class Interp:
                     return RangeV(Lin(0), args[0])
                 if len(args) == 2:
                     return RangeV(args[0], args[1])
+                if len(args) == 3 and args[2].is_const() and args[2].const < 0 and args[0].is_const() and args[1].is_const() \
+                        and len(range(args[0].const, args[1].const, args[2].const)) <= 64:
+                    return ListV([Seg(Lin(i)) for i in range(args[0].const, args[1].const, args[2].const)])
                 if len(args) == 3 and args[2].is_const() and args[2].const > 0:
                     span = args[1] - args[0]
                     if span.is_const():
                         n = max(0, -(-span.const // args[2].const))
                         return RangeV(args[0], args[1], args[2].const, n)
             return Unknown("range")
+        if name in ("set", "frozenset") and not args and not kwargs:
+            return ListV([], unordered=True)
+        if name == "dict" and not args and not kwargs:
+            return MapV({})
+        if name in ("set", "frozenset") and len(args) == 1 and not kwargs and isinstance(args[0], GenV):
+            args = [self.materialise(args[0], state)]
+        if name in ("set", "frozenset") and len(args) == 1 and not kwargs and isinstance(args[0], TupleV):
+            args = [ListV([Seg(x) for x in args[0].items])]
+        if name in ("set", "frozenset", "list", "tuple", "sorted") and len(args) == 1 and isinstance(args[0], MapV) and args[0].name is None and not args[0].unknown:
+            args = [ListV([Seg(self.thaw_key(k)) for k in args[0].entries])]
         if name in ("set", "frozenset") and len(args) == 1 and not kwargs and isinstance(args[0], ListV) and not args[0].unknown \
                 and not args[0].stores and all(not sg.binders and isinstance(sg.elem, Lin) for sg in args[0].segs):
             uniq: List[Any] = []
@@ -1945,11 +2389,11 @@ class Interp:
             keys = elems
             kf = kwargs.get("key")
             if kf is not None:
-                if not isinstance(kf, FuncRef):
-                    return Unknown("sorted with a key that is not a named function")
+                if not isinstance(kf, (FuncRef, ClosureV, ItemGetterV)):
+                    return Unknown("sorted with a key that is not a function of the repository")
                 keys = []
                 for x in elems:
-                    kv = self.call_ref(kf, [x], {}, state, node, "")
+                    kv = self.apply_value(kf, [x], state, node, "")
                     if not isinstance(kv, Lin):
                         return Unknown("sort key not determined")
                     keys.append(kv)
